@@ -33,9 +33,9 @@ def run(rep):
     rep.add_tlc(r, traces=len(recs))
     nrows = sum(len(t['rows']) for c in recs for t in c.get('tables', []))
     rep.cov['evaluations'] = nrows
-    rep.cov['distinct_nontrivial'] = nrows
+    rep.cov['distinct_nontrivial'] = len({(c['logic'], t['op'], tuple(r['ins'])) for c in recs for t in c.get('tables', []) for r in t['rows']})
     rep.cov['rule'] = ('every (logic, operator, value tuple) row of Model.truth_table for the 8 truth-functional operators, asked in several histories (forward, reversed, again; logics imported on demand in 3+ orders), '
-                       'operators of all registered logics; every row is distinct; non-trivial = all of them')
+                       'operators of all registered logics; distinct = (logic, operator, value tuple) triples (each asked in every history); non-trivial = all of them')
     rep.cov['exhaustive'] = True
     rep.cov['logics'] = len({c['logic'] for c in recs if c['logic']})
     rep.cov['phases'] = modes
